@@ -11,6 +11,7 @@
   _zone_local_mapping.py, _resolvers.py.
 -/
 import PyodaModel.Prelude
+import PyodaModel.Calendar.Systems
 
 namespace Pyoda.Zone
 
@@ -73,35 +74,21 @@ def mk' (name : String) (s e wall savings : Int) : R ZI :=
 def withStart (z : ZI) (s : Int) : R ZI := mk' z.name s z.e z.wall z.savings
 end ZI
 
-/-! ## ISO calendar arithmetic used by the yearly rules -/
+/-! ## ISO calendar arithmetic used by the yearly rules — the Gregorian calculator of the Calendar area
+    (`CalendarSystem.iso`): leap years, month lengths, `LocalDate(y, m, d)` day numbers, `_get_year` -/
 
-def isLeap (y : Int) : Bool := (y % 4 == 0) && (y % 100 != 0 || y % 400 == 0)
+def isLeap (y : Int) : Bool := Calendar.Greg.isLeap y
 
-def daysInMonth (y m : Int) : Int :=
-  if m = 2 then (if isLeap y then 29 else 28)
-  else if m = 4 ∨ m = 6 ∨ m = 9 ∨ m = 11 then 30 else 31
+def daysInMonth (y m : Int) : Int := Calendar.GJ.dim (Calendar.Greg.isLeap y) m
 
-/-- days since 1970-01-01 of the proleptic Gregorian date (y, m, d) -/
+/-- days since 1970-01-01 of the ISO date (y, m, d): year start + days to the month + day − 1 -/
 def daysFromCivil (y m d : Int) : Int :=
-  let y' := if m ≤ 2 then y - 1 else y
-  let era := y' / 400
-  let yoe := y' - era * 400
-  let mp := (m + 9) % 12
-  let doy := (153 * mp + 2) / 5 + d - 1
-  let doe := yoe * 365 + yoe / 4 - yoe / 100 + doy
-  era * 146097 + doe - 719468
+  Calendar.Greg.start y + Calendar.GJ.totalDays (Calendar.Greg.isLeap y) m + d - 1
 
-/-- Gregorian year containing day number `z` -/
-def yearOfDays (z0 : Int) : Int :=
-  let z := z0 + 719468
-  let era := z / 146097
-  let doe := z - era * 146097
-  let yoe := (doe - doe / 1460 + doe / 36524 - doe / 146096) / 365
-  let y := yoe + era * 400
-  let doy := doe - (365 * yoe + yoe / 4 - yoe / 100)
-  let mp := (5 * doy + 2) / 153
-  let m := if mp < 10 then mp + 3 else mp - 9
-  if m ≤ 2 then y + 1 else y
+/-- `CalendarSystem.iso._year_month_day_calculator._get_year(days)[0]` -/
+def yearOfDays (z : Int) : R Int := do
+  let (y, _) ← Calendar.getYear Calendar.Greg.cal z
+  pure y
 
 /-- ISO day of week, Monday = 1 … Sunday = 7 -/
 def dayOfWeek (days : Int) : Int := (days + 3) % 7 + 1
@@ -182,7 +169,7 @@ def next (r : Recurrence) (t std prevSavings : Int) : R (Option Int) := do
     if safeLocal < mn then pure (some r.fromYear)
     else if safeLocal ≥ mx then pure none
     else if safeLocal = BMIN then pure (some MIN_GREG_YEAR)
-    else pure (some (yearOfDays (dayOf safeLocal)))
+    else do let y ← yearOfDays (dayOf safeLocal); pure (some y)
   match target with
   | none => if mx = AMAX then .ok (some AMAX) else .ok none
   | some y =>
@@ -207,7 +194,9 @@ def previousOrSame (r : Recurrence) (t std prevSavings : Int) : R (Option Int) :
   else if safeLocal < mn then .ok none
   else if !(isValid safeLocal) then
     if safeLocal = BMIN then .ok (some BMIN) else go r t ro MAX_GREG_YEAR
-  else go r t ro (yearOfDays (dayOf safeLocal))
+  else do
+    let y ← yearOfDays (dayOf safeLocal)
+    go r t ro y
 where
   go (r : Recurrence) (t ro y : Int) : R (Option Int) := do
     let tr ← r.yo.occurrence y
